@@ -142,13 +142,13 @@ def audit_props(ctx, modules):
     if rc != 0:
         info["build_log"] = text[-3000:]
         return False, info
-    for mt in re.finditer(r"'([^']+)' depends on axioms: \[([^\]]*)\]", text, flags=re.S):
+    for mt in re.finditer(r"^'([^\n]+?)' depends on axioms: \[([^\]]*)\]", text, flags=re.M):
         axs = [a.strip() for a in mt.group(2).replace("\n", " ").split(",") if a.strip()]
         info["axioms"][mt.group(1)] = axs
         extra = [a for a in axs if a not in STD_AXIOMS]
         if extra:
             info["nonstandard_axioms"][mt.group(1)] = extra
-    for mt in re.finditer(r"'([^']+)' does not depend on any axioms", text):
+    for mt in re.finditer(r"^'([^\n]+?)' does not depend on any axioms", text, flags=re.M):
         info["axioms"][mt.group(1)] = []
     info["theorems"] = allnames
     missing = [n for n in allnames if n not in info["axioms"]]
